@@ -189,7 +189,9 @@ def run(ctx):
         zstep = rng.choice([1.0, 2.0, 2.5])
         files = cli.write_dataset(ctx.tmp, "t%d" % d_i, *tr.rows())
         base = ctx.scratch("base%d.sqlite3" % d_i)
-        if cli.load(base, files)[0] != "ok":
+        rl = cli.load(base, files)
+        if rl[0] != "ok":
+            ctx.corr_break("a planted record is loaded (prerequisite of every step)", {"input": {"truth": tr.describe()}, "impl": list(rl)})
             continue
         inp0 = {"truth": tr.describe(), "zeta_step": zstep}
         # states: loaded -> classify -> grid -> curvature -> rise -> recession (canonical order)
@@ -221,6 +223,11 @@ def run(ctx):
             # ---- (i) trace conformance: the theorem's hypothesis on the real code
             copy_db(before_db, work)
             t = forked(argv_of(st, work, tr, zstep), "trace", -1, ctx.tmp)
+            if "stmts" not in t or t.get("status", ["x"])[0] != "ok":
+                ctx.corr_break("SQL trace of each step is one transaction (singleTxnB) inside its declared footprint",
+                               {"input": dict(inp0, step=st), "impl": {k_: t.get(k_) for k_ in ("killed", "status")},
+                                "no_longer_checks": "the step runs to the end in a traced child process"})
+                continue
             evs = [e for e in (classify_stmt(s) for s in t["stmts"]) if e]
             pragmas = [s_ for s_ in t["stmts"] if classify_stmt(s_) == "p"]
             evs = [e for e in evs if e != "p"]
@@ -336,7 +343,7 @@ def run(ctx):
                     rf = cli.run(argv_of(f, work, tr, zstep, variant=(f in done and rng.random() < 0.6)))
                     hist.append(f + "(!)" if rf[0] != "ok" else f + "(unexpectedly ok)")
                     if rf[0] == "ok":
-                        ctx.count("failing_attempt_succeeded")
+                        ctx.count("failing_attempt_succeeded")    # (judged below: the final dataset must still be the same)
                 r = cli.run(argv_of(st, work, tr, zstep))
                 hist.append(st)
                 done.append(st)
@@ -352,6 +359,14 @@ def run(ctx):
                     "oracle": {"name": "c20Histories", "result": False,
                                "witness": {"why": "two histories containing the same successful steps end in different datasets",
                                            "history": hist, "tables_differing": diff}}})
+    no_dataset_guard(ctx, done_data, ndata)
+
+
+def no_dataset_guard(ctx, done_data, ndata):
+    if done_data < ndata:
+        ctx.corr_break("at least one planted dataset goes through all five steps in the canonical order",
+                       {"input": None, "notes": ctx.notes[-3:],
+                        "no_longer_checks": "classify / set-zeta-grid / set-curvature / rise / recession succeed on planted records"})
 
 
 def single_after_commit(stmts, k, commit_idx):
